@@ -416,3 +416,35 @@ func init() {
 		return 0
 	}
 }
+
+func init() {
+	// dbgbyz <scenario> <pos> <node> <kind>: run the seed with one Byzantine signature payload inserted at pos; count step errors before/after
+	checks["dbgbyz"] = func(args []string) int {
+		sc := sched.ScenarioByName(args[0])
+		pos, node, kind := atoi(args[1]), atoi(args[2]), args[3]
+		x := sched.NewExec(sc, nil)
+		defer x.Close()
+		x.NoDigest = true
+		errsAfter := map[string]int{}
+		for i, a := range sc.Seed {
+			if i == pos {
+				fmt.Println("BZ:", x.Step(sched.Action{K: "BZ", A: node, Tx: kind}))
+			}
+			if err := x.Step(a); err != nil && i >= pos {
+				errsAfter[fmt.Sprintf("%.80s", err.Error())]++
+			}
+		}
+		fmt.Println("step errors after the injection:", errsAfter)
+		sr := x.FairSuffix(40)
+		fmt.Printf("suffix %+v\n", sr)
+		for _, n := range x.C.Nodes {
+			h := n.Node.VHashgraph()
+			ab := -1
+			if h.AnchorBlock != nil {
+				ab = *h.AnchorBlock
+			}
+			fmt.Printf("node %d: blocks=%d anchor=%d pendingSigs=%d\n", n.Idx, len(n.App.Commits), ab, h.PendingSignatures.Len())
+		}
+		return 0
+	}
+}
